@@ -22,6 +22,10 @@ Shell layer (any generator can use it):
   behaviour(linker, mode, objs, ctx, tag, opts=(), libs=(), cwd=None)
                              -> ("ok", stdout, rc) | ("reject", stderr, rc) | ("crash", stderr, rc)
   wild_crashed(res)          -> True iff a tools.Result of wild shows a panic / signal
+  shrink_budget(seconds)     decorator for Check.run_case: once a Violation has been raised in this
+                             worker, Hypothesis' shrinking is given `seconds` of wall time, after
+                             which further candidates return immediately as "passing" (the reported
+                             case is always one that really failed; replay is unaffected).
 
 Site-program layer (reference kinds x symbol kinds, used by C01/C27/C28):
   program_strategy(modes, ...)   Hypothesis strategy of raw JSON specs valid for all `modes`
@@ -31,7 +35,9 @@ Site-program layer (reference kinds x symbol kinds, used by C01/C27/C28):
   Program.classes()              -> ["kind/symkind", ...] for histograms
 See the section "Site programs" below for the spec format.
 """
+import functools
 import os
+import time
 
 from . import tools
 from .core import Inconclusive
@@ -42,6 +48,24 @@ LIBC_MODES = ("static-libc", "static-pie", "pie", "dyn", "shared")
 DYNAMIC_MODES = ("pie", "dyn", "shared")
 
 NOTE_GNU_STACK = '    .section .note.GNU-stack,"",@progbits\n'
+
+def shrink_budget(seconds=40):
+    def deco(fn):
+        state = {"t_fail": None}
+
+        @functools.wraps(fn)
+        def wrapper(self, case, ctx):
+            if state["t_fail"] is not None and not getattr(ctx, "strict", False) and time.time() - state["t_fail"] > seconds:
+                return {"nontrivial": False, "classes": ["shrink_budget_exhausted"]}
+            try:
+                return fn(self, case, ctx)
+            except Exception as e:
+                if type(e).__name__ == "Violation" and state["t_fail"] is None and not getattr(ctx, "strict", False):
+                    state["t_fail"] = time.time()
+                raise
+        return wrapper
+    return deco
+
 
 # ------------------------------------------------------------------------------------------------
 # Runtime + shells
@@ -199,3 +223,608 @@ def behaviour(linker, mode, objs, ctx, tag, opts=(), libs=(), cwd=None):
         return ("reject", r.err[-1500:], r.rc)
     so, rc = run_program(out, cwd)
     return ("ok", so, rc)
+
+
+# ================================================================================================
+# Site programs
+#
+# Raw spec (JSON, produced by program_strategy; every field is an int/str/bool/list):
+#   {"ntu": 2..4,
+#    "defs":  [{"tu": int, "kind": DEF_KINDS, "bind": BINDS, "pad": 0..2, "aux": int, "dup": int}, ...],
+#    "sites": [{"tu": int, "ref": int, "tgt": int, "k": 0..3, "aux": int}, ...]}
+# `realise(spec, modes)` turns it into a Program: targets/reference kinds are picked *by index
+# modulo the list of choices that are sound for every mode in `modes`* so that every raw spec
+# (including every shrink of it) denotes a valid program.
+#
+# Definitions (unique 24-bit id I; value observed through a reference with index k is (I<<8)|k):
+#   func    two entry points 8 bytes apart returning (I<<8)|0 and (I<<8)|1
+#   data / rodata   four quads (I<<8)|k in .data.NAME / .rodata.NAME (pad quads before the label)
+#   common  .comm NAME,32,8, filled by the owning TU's init function
+#   tdata / tbss    TLS, four quads (tbss filled by the init function through an IE reference)
+#   abs     absolute symbol (value from ABS_VALUES); observed value is the "address" itself
+#   ifunc   STT_GNU_IFUNC whose resolver picks an implementation returning (I<<8)|0
+#   str     NUL-terminated string in a mergeable section; observed = 8 bytes at offset k
+#   hfunc / hdata / htls   defined in the helper shared library (dynamic modes only)
+#   wundef  weak undefined (address observed as 0, never dereferenced/called)
+# "dup" > 0 on a global func/data adds a losing weak duplicate with another id in another TU.
+
+DEF_KINDS = ["func", "func", "data", "data", "rodata", "common", "tdata", "tbss", "abs", "ifunc", "str",
+             "hfunc", "hdata", "htls", "wundef"]
+BINDS = ["local", "global", "hidden", "protected", "weak"]
+ABS_VALUES = [0, 1, 0x1234, 0x7ffffff0, 0x80000000, 0x90000000, 0xfffffff0, 0x100000000, 0x123456789a,
+              0x7ffffffffffffff0, 0xffffffff80000000, 0xfffffffffffffff0]
+STRINGS = ["hello-world-0123456789abcdefXYZ", "world-0123456789abcdefXYZ", "0123456789abcdefXYZ",
+           "another-string-constant-for-merging", "constant-for-merging", "zzzzzzzzzzzzzzzzzzzzzzzzzzzzzzzz"]
+M64 = (1 << 64) - 1
+
+CAT = {"func": "func", "ifunc": "func", "hfunc": "func", "data": "data", "rodata": "data", "common": "data",
+       "str": "data", "hdata": "data", "tdata": "tls", "tbss": "tls", "htls": "tls", "abs": "abs", "wundef": "wundef"}
+
+REXOPS = ["mov", "add", "sub", "or", "xor", "and", "adc", "sbb", "cmp", "test"]
+# name -> (class, nonpic_only)
+REFS = {
+    "abs64d": ("abs", False), "abs64t": ("abs", True), "abs32": ("abs", True), "abs32s": ("abs", True),
+    "abs32sm": ("abs", True), "abs32d": ("abs", True),
+    "pc32": ("pc", False), "pc32m": ("pc", False), "pc32d": ("pc", False), "pc64": ("pc", False),
+    "gotoff64": ("pc", False),
+    "gotpcrel": ("got", False), "gotpcrelx": ("got", True), "got64": ("got", False),
+    "call": ("plt", False), "jmp": ("plt", False), "gotcall": ("got", False), "gotjmp": ("got", False),
+    "pltoff64": ("plt", False),
+    "tpoff32m": ("tls", False), "tpoff32i": ("tls", False), "tpoff64d": ("tls", False),
+    "gottpoff": ("tls", False), "gottpoff_add": ("tls", False), "tlsgd": ("tls", False),
+    "tlsld": ("tls", False), "tlsdesc": ("tls", False),
+}
+for _op in REXOPS:
+    REFS["rexgot_" + _op] = ("got", False)
+REF_NAMES = list(REFS)
+FUNC_ONLY = {"call", "jmp", "gotcall", "gotjmp", "pltoff64"}
+DEREF_ONLY = {"abs32sm", "pc32m"}          # the instruction itself loads the value
+FLAG_OBS = {"rexgot_cmp", "rexgot_test"}   # observation is a flag (1), not an address
+DATA_SITE = {"abs64d", "abs32d", "pc32d", "pc64", "tpoff64d"}   # the relocation sits in a data section
+GOT_FAMILY = {r for r, (c, _) in REFS.items() if c == "got"}
+# references that never had wild support in this tree are listed here after probing (kept out of
+# the domain by construction, see probe notes in the C01 docstring)
+UNSUPPORTED_REFS = {"tpoff64d"}      # R_X86_64_TPOFF64 in data: rejected by lld 14 and by wild
+
+
+def preemptible(t, mode):
+    return mode == "shared" and t["kind"] in ("func", "data", "rodata", "common", "tdata", "tbss", "ifunc", "str") \
+        and t["bind"] in ("global", "weak")
+
+
+RELAXED_TO_IMM = {"rexgot_mov", "rexgot_sub", "rexgot_cmp"}
+
+
+def abs_domain_known_defect(ref, t):
+    """Exact domain of the known finding (C01/C14): absolute symbol with value in [2^31, 2^32)
+    referenced by a REX.W mov/sub/cmp sym@GOTPCREL(%rip) (R_X86_64_REX_GOTPCRELX), which wild
+    relaxes to a sign-extended imm32."""
+    return t["kind"] == "abs" and ref in RELAXED_TO_IMM and 0x80000000 <= t["absval"] < 0x100000000
+
+
+def abs_domain_link_error(ref, t):
+    """Same relaxation, absolute value >= 2^32: wild fails the link ("Relocation N outside of bounds
+    [0, 4294967296)") where GNU ld/lld keep the GOT load. A rejected link is outside C01's
+    quantifier, so this domain is never generated (it would only produce discards)."""
+    return t["kind"] == "abs" and ref in RELAXED_TO_IMM and t["absval"] >= 0x100000000
+
+
+def tlsgd_protected_shared_domain(ref, t, mode):
+    """Exact domain of the known finding C01 `tlsgd-protected-shared`: general-dynamic TLS reference
+    to a protected-visibility TLS symbol when the output is a shared object (wild emits DTPMOD64
+    against the symbol but neither a DTPOFF64 relocation nor the static offset: offset word = 0)."""
+    return mode == "shared" and ref == "tlsgd" and t["kind"] in ("tdata", "tbss") and t["bind"] == "protected"
+
+
+def known_domain(ref, t, mode):
+    """Signature of the known finding whose exact domain contains this reference, else None."""
+    if abs_domain_known_defect(ref, t):
+        return "abs-gotpcrelx-imm-sign-extended"
+    if tlsgd_protected_shared_domain(ref, t, mode):
+        return "tlsgd-protected-shared"
+    return None
+
+
+ALLOW_KNOWN = False     # C01 sets this to generate (and then count/skip) the known-defect domains
+
+
+def ref_ok(ref, t, mode, k=0):
+    """Soundness domain: may reference kind `ref` target definition `t` in output kind `mode`?"""
+    if ref in UNSUPPORTED_REFS or abs_domain_link_error(ref, t):
+        return False
+    if not ALLOW_KNOWN and known_domain(ref, t, mode):
+        return False
+    cls, nonpic = REFS[ref]
+    kind = t["kind"]
+    cat = CAT[kind]
+    pic = mode in PIC_MODES
+    helper = kind in ("hfunc", "hdata", "htls")
+    if helper and mode not in DYNAMIC_MODES:
+        return False
+    if nonpic and pic:
+        return False
+    if t["kind"] == "abs" and ref == "got64" and mode in PIC_MODES:
+        return False      # GNU ld: "R_X86_64_GOT64 against absolute symbol ... is disallowed" in PIE
+    if ref in ("got64", "pltoff64") and t["bind"] == "local":
+        return False      # gas turns sym@GOT/@PLTOFF on a local symbol into section+offset (G+A): not meaningful
+    if cat == "tls":
+        if mode == "static" or cls != "tls":
+            return False
+        if ref in ("tpoff32m", "tpoff32i", "tpoff64d"):
+            return mode != "shared" and not helper
+        if ref == "tlsld":
+            return not helper and not preemptible(t, mode)
+        return True
+    if cls == "tls":
+        return False
+    if kind == "ifunc" and mode == "static":
+        return False
+    if ref in FUNC_ONLY and cat != "func":
+        return False
+    if ref in DEREF_ONLY and cat != "data":
+        return False
+    if cat == "abs":
+        v = (t["absval"] + 8 * k) & M64
+        if t["absval"] + 8 * k > M64:
+            return False                      # no wrap-around arithmetic in the domain
+        if ref == "abs64d" or ref == "abs64t":
+            return True
+        if ref in ("abs32", "abs32d", "gotpcrelx"):
+            return v < (1 << 32)
+        if ref == "abs32s":
+            return v < (1 << 31) or v >= M64 + 1 - (1 << 31)
+        if mode == "shared":
+            return ref == "rexgot_mov"        # GNU ld 2.40 hits a BFD assertion for other GOT forms on absolute symbols
+        if cls == "got" and ref not in ("gotcall", "gotjmp"):
+            return True
+        return False
+    if cat == "wundef":
+        if ref in FLAG_OBS:
+            return False
+        if ref in ("abs64t", "abs32", "abs32s") or (cls == "got" and ref not in ("gotcall", "gotjmp")):
+            return True
+        if ref == "abs64d":
+            return True
+        return False
+    if kind == "ifunc" and ref in ("gotoff64", "abs32d", "pc32d", "pc64", "got64", "pltoff64"):
+        return False      # GNU ld: "relocation R_X86_64_* against STT_GNU_IFUNC symbol isn't supported"
+    if helper and ref == "gotpcrelx":
+        return False      # 32-bit load of a GOT entry that holds an address above 4 GiB
+    if helper and ref == "abs32d":
+        return False      # 32-bit dynamic relocation in writable data: rejected by GNU ld
+    if cat == "abs" and ref == "got64" and pic:
+        return False      # GNU ld: "R_X86_64_GOT64 against absolute symbol ... is disallowed" in PIE
+    if cls == "pc":
+        if helper and ref in ("pc32", "pc32m") and (mode == "dyn" or (mode == "pie" and cat == "data")):
+            return True   # copy relocation / canonical PLT in an executable (GNU ld rejects PC32 to a DSO function in PIE)
+        if helper or preemptible(t, mode):
+            return False
+        if mode == "shared" and t["bind"] == "protected":
+            return False
+        return True
+    return True
+
+
+def fix_k(ref, t, k, modes):
+    """Addend index actually used: functions have two entry points; PLT/canonical-PLT/ifunc targets
+    only make sense with addend 0 when the relocation itself carries the addend."""
+    cat = CAT[t["kind"]]
+    if t["kind"] in ("ifunc", "wundef", "hfunc"):
+        return 0          # hfunc: a canonical PLT entry may stand for the function; it has one entry point
+    if t["kind"] == "str":
+        return k % ((len(STRINGS[t["sid"]]) + 1) // 8)
+    if cat == "func":
+        k %= 2
+        carries = REFS[ref][0] in ("abs", "pc", "plt")
+        if carries and (t["kind"] == "hfunc" or any(preemptible(t, m) for m in modes)):
+            return 0
+    return k
+
+
+class Program:
+    """Normalised program. `defs`: list of dicts (name,kind,bind,tu,id,pad,absval,sid,dup_tu);
+    `sites`: list of dicts (n,tu,ref,tgt,k,ro)."""
+
+    @classmethod
+    def explicit(cls, ntu, defs, sites, modes):
+        """Builds a Program from already-normalised defs/sites (used by matrix passes)."""
+        p = cls.__new__(cls)
+        p.modes, p.ntu, p.defs, p.sites = tuple(modes), ntu, defs, sites
+        p.pic = any(m in PIC_MODES for m in modes)
+        return p
+
+    def __init__(self, spec, modes):
+        self.modes = tuple(modes)
+        self.ntu = max(1, min(6, spec["ntu"]))
+        self.defs = []
+        self.sites = []
+        libc = all(m in LIBC_MODES for m in modes)
+        dyn = all(m in DYNAMIC_MODES for m in modes)
+        local_ord = {}
+        for i, r in enumerate(spec["defs"][:40]):
+            kind, bind = r["kind"], r["bind"]
+            tu = r["tu"] % self.ntu
+            if kind in ("tdata", "tbss", "ifunc", "htls") and not libc:
+                kind = "data" if kind != "ifunc" else "func"
+            if kind in ("hfunc", "hdata", "htls") and not dyn:
+                kind = {"hfunc": "func", "hdata": "data", "htls": "tdata"}[kind]
+            d = {"kind": kind, "bind": bind, "tu": tu, "id": 0x100 + i, "pad": r["pad"] % 3, "absval": 0, "sid": 0,
+                 "dup_tu": None}
+            if kind == "abs":
+                d["absval"] = ABS_VALUES[r["aux"] % len(ABS_VALUES)]
+                if bind == "local":
+                    d["bind"] = "global"
+            elif kind == "str":
+                d["sid"] = r["aux"] % len(STRINGS)
+                d["bind"] = "local"
+            elif kind == "common":
+                if bind in ("local", "weak", "protected"):
+                    d["bind"] = "global"
+            elif kind in ("hfunc", "hdata", "htls"):
+                d["bind"] = "global"
+                d["tu"] = -1
+            elif kind == "wundef":
+                d["bind"] = "weak"
+                d["tu"] = -1
+            elif kind == "ifunc":
+                if bind in ("weak", "protected"):
+                    d["bind"] = "global"
+            if d["bind"] == "local":
+                # same local names in different TUs on purpose
+                o = local_ord.get((tu, kind), 0)
+                local_ord[(tu, kind)] = o + 1
+                d["name"] = f"L{kind}{o}"
+            else:
+                d["name"] = f"{kind[0]}{kind[-1]}{i}"
+            if r["dup"] and d["bind"] == "global" and kind in ("func", "data", "rodata") and self.ntu > 1:
+                d["dup_tu"] = (tu + 1 + (r["dup"] - 1) % (self.ntu - 1)) % self.ntu
+            self.defs.append(d)
+        if not any(CAT[d["kind"]] in ("func", "data") and not d["kind"].startswith("h") for d in self.defs):
+            self.defs.append({"kind": "data", "bind": "global", "tu": 0, "id": 0x1ff, "pad": 0, "absval": 0, "sid": 0,
+                              "dup_tu": None, "name": "da_fallback"})
+        nd = len(self.defs)
+        for j, r in enumerate(spec["sites"][:40]):
+            tu = r["tu"] % self.ntu
+            k = r["k"] % 4
+            chosen = None
+            for off in range(nd):
+                t = self.defs[(r["tgt"] + off) % nd]
+                if t["bind"] == "local" and t["tu"] != tu:
+                    continue
+                refs = [x for x in REF_NAMES if all(ref_ok(x, t, m, fix_k(x, t, k, modes)) for m in modes)]
+                if refs:
+                    ref = refs[r["ref"] % len(refs)]
+                    chosen = (t, ref, fix_k(ref, t, k, modes))
+                    break
+            if chosen is None:
+                continue
+            t, ref, kk = chosen
+            self.sites.append({"n": j + 1, "tu": tu, "ref": ref, "tgt": self.defs.index(t), "k": kk,
+                               "ro": bool(r["aux"] & 1)})
+        self.pic = any(m in PIC_MODES for m in modes)
+
+    # -- queries ----------------------------------------------------------------------------------
+    def uses_helper(self):
+        return any(self.defs[s["tgt"]]["kind"] in ("hfunc", "hdata", "htls") for s in self.sites)
+
+    def known_domains(self):
+        """Signatures of known findings whose exact domain this program enters (for any of its modes)."""
+        out = set()
+        for s in self.sites:
+            for m in self.modes:
+                k = known_domain(s["ref"], self.defs[s["tgt"]], m)
+                if k:
+                    out.add(k)
+        return sorted(out)
+
+    def classes(self):
+        out = []
+        for s in self.sites:
+            t = self.defs[s["tgt"]]
+            out.append(f"{s['ref']}/{t['kind']}:{t['bind']}")
+        return out
+
+    def string_value(self, t, k):
+        b = (STRINGS[t["sid"]] + "\0").encode()
+        assert 8 * k + 8 <= len(b)
+        return int.from_bytes(b[8 * k:8 * k + 8], "little")
+
+    def expected_value(self, s):
+        t = self.defs[s["tgt"]]
+        cat = CAT[t["kind"]]
+        if s["ref"] == "rexgot_test" and cat == "abs":
+            return int(t["absval"] != 0)
+        if s["ref"] in FLAG_OBS:
+            return 1
+        if cat == "abs":
+            return (t["absval"] + 8 * s["k"]) & M64
+        if cat == "wundef":
+            return 0
+        if t["kind"] == "str":
+            return self.string_value(t, s["k"])
+        return (t["id"] << 8) | s["k"]
+
+    def expected(self):
+        lines = [f"{s['n']:08x} {self.expected_value(s):016x}\n" for s in self.sites]
+        return "".join(lines)
+
+    def expected_rc(self):
+        return 1 + (len(self.sites) & 0x3f)
+
+    # -- emission ---------------------------------------------------------------------------------
+    @staticmethod
+    def _decl(name, bind, typ):
+        s = ""
+        if bind == "weak":
+            s += f"    .weak {name}\n"
+        elif bind != "local":
+            s += f"    .globl {name}\n"
+        if bind in ("hidden", "protected"):
+            s += f"    .{bind} {name}\n"
+        s += f"    .type {name},{typ}\n"
+        return s
+
+    def _emit_def(self, d, weak_copy=False):
+        name, kind, did = d["name"], d["kind"], d["id"]
+        bind = "weak" if weak_copy else d["bind"]
+        if weak_copy:
+            did = did | 0x8000          # the losing copy carries a different id
+        s = []
+        if kind == "func":
+            s.append(f'    .section .text.{name},"ax",@progbits\n    .balign 8\n')
+            s.append("    .quad 0x9090909090909090\n" * d["pad"])
+            s.append(self._decl(name, bind, "@function"))
+            s.append(f"{name}:\n    mov ${did << 8}, %eax\n    ret\n    .balign 8\n    mov ${(did << 8) | 1}, %eax\n    ret\n"
+                     f"    .size {name}, .-{name}\n")
+        elif kind in ("data", "rodata"):
+            sec, fl = (".data", "aw") if kind == "data" else (".rodata", "a")
+            s.append(f'    .section {sec}.{name},"{fl}",@progbits\n    .balign 8\n')
+            s.append("    .quad 0x5a5a5a5a5a5a5a5a\n" * d["pad"])
+            s.append(self._decl(name, bind, "@object"))
+            s.append(f"{name}:\n" + "".join(f"    .quad {(did << 8) | k}\n" for k in range(4)) + f"    .size {name}, 32\n")
+        elif kind == "common":
+            s.append(f"    .comm {name},32,8\n")
+            if bind == "hidden":
+                s.append(f"    .hidden {name}\n")
+        elif kind == "tdata":
+            s.append('    .section .tdata,"awT",@progbits\n    .balign 8\n')
+            s.append("    .quad 0x5a5a5a5a5a5a5a5a\n" * d["pad"])
+            s.append(self._decl(name, bind, "@object"))
+            s.append(f"{name}:\n" + "".join(f"    .quad {(did << 8) | k}\n" for k in range(4)) + f"    .size {name}, 32\n")
+        elif kind == "tbss":
+            s.append('    .section .tbss,"awT",@nobits\n    .balign 8\n')
+            s.append("    .zero 8\n" * d["pad"])
+            s.append(self._decl(name, bind, "@object"))
+            s.append(f"{name}:\n    .zero 32\n    .size {name}, 32\n")
+        elif kind == "abs":
+            s.append(self._decl(name, bind, "@notype"))
+            s.append(f"    {name} = {d['absval']:#x}\n")
+        elif kind == "ifunc":
+            s.append(f'    .section .text.{name},"ax",@progbits\n    .balign 8\n')
+            s.append(self._decl(name, bind, "@gnu_indirect_function"))
+            s.append(f"{name}:\n    lea {name}_impl(%rip), %rax\n    ret\n    .balign 8\n{name}_impl:\n    mov ${did << 8}, %eax\n    ret\n")
+        elif kind == "str":
+            s.append('    .section .rodata.str1.1,"aMS",@progbits,1\n')
+            s.append(f'{name}:\n    .asciz "{STRINGS[d["sid"]]}"\n')
+        return "".join(s)
+
+    def _addr_code(self, s, t):
+        """Code leaving the (addend-adjusted) address / value of the target in %rax. Returns
+        (text_code, data_section_text)."""
+        T, ref, n = t["name"], s["ref"], s["n"]
+        cat = CAT[t["kind"]]
+        A = 8 * s["k"]
+        plus = f"+{A}" if A else ""
+        data = ""
+        if ref in DATA_SITE:
+            sec = ".data.rel.ro" if s["ro"] else ".data"
+            if ref in ("abs32d",) and s["ro"]:
+                sec = ".rodata"
+            fl = "a" if sec == ".rodata" else "aw"
+            data = f'    .section {sec}.site{n},"{fl}",@progbits\n    .balign 8\nP{n}:\n'
+        if ref == "abs64d":
+            data += f"    .quad {T}{plus}\n"
+            return f"    mov P{n}(%rip), %rax\n", data
+        if ref == "abs32d":
+            data += f"    .long {T}{plus}\n"
+            return f"    mov P{n}(%rip), %eax\n", data
+        if ref == "pc32d":
+            data += f"    .long {T}{plus}-.\n"
+            return f"    lea P{n}(%rip), %rax\n    movslq P{n}(%rip), %rcx\n    add %rcx, %rax\n", data
+        if ref == "pc64":
+            data += f"    .quad {T}{plus}-.\n"
+            return f"    lea P{n}(%rip), %rax\n    add P{n}(%rip), %rax\n", data
+        if ref == "abs64t":
+            return f"    movabs ${T}{plus}, %rax\n", ""
+        if ref == "abs32":
+            return f"    mov ${T}{plus}, %eax\n", ""
+        if ref == "abs32s":
+            return f"    mov ${T}{plus}, %rax\n", ""
+        if ref == "pc32":
+            return f"    lea {T}{plus}(%rip), %rax\n", ""
+        if ref == "gotoff64":
+            return (f"    lea _GLOBAL_OFFSET_TABLE_(%rip), %rcx\n    movabs ${T}@GOTOFF{plus}, %rax\n"
+                    f"    add %rcx, %rax\n"), ""
+        add = f"    add ${A}, %rax\n" if A else ""
+        if ref == "gotpcrel":
+            return f"    pushq {T}@GOTPCREL(%rip)\n    pop %rax\n" + add, ""
+        if ref == "gotpcrelx":
+            return f"    movl {T}@GOTPCREL(%rip), %eax\n" + add, ""
+        if ref == "got64":
+            return (f"    lea _GLOBAL_OFFSET_TABLE_(%rip), %rcx\n    movabs ${T}@GOT, %rax\n"
+                    f"    mov (%rax,%rcx), %rax\n") + add, ""
+        if ref.startswith("rexgot_"):
+            op = ref[7:]
+            g = f"{T}@GOTPCREL(%rip)"
+            if op == "mov":
+                c = f"    mov {g}, %rax\n"
+            elif op in ("add", "or", "xor"):
+                c = f"    xor %eax, %eax\n    {op} {g}, %rax\n"
+            elif op == "and":
+                c = f"    mov $-1, %rax\n    and {g}, %rax\n"
+            elif op == "adc":
+                c = f"    xor %eax, %eax\n    clc\n    adc {g}, %rax\n"
+            elif op in ("sub", "sbb"):
+                c = f"    xor %eax, %eax\n    clc\n    {op} {g}, %rax\n    neg %rax\n"
+            elif op == "cmp":
+                c = f"    pushq {g}\n    pop %rcx\n    xor %eax, %eax\n    cmp {g}, %rcx\n    sete %al\n"
+                return c, ""
+            elif op == "test":
+                # ZF := (addr & -1) == 0 ; address of a defined symbol is non-zero
+                c = f"    mov $-1, %rcx\n    xor %eax, %eax\n    test %rcx, {g}\n    setne %al\n"
+                if cat == "abs":
+                    c = f"    pushq {g}\n    pop %rcx\n    xor %eax, %eax\n    test %rcx, {g}\n    setne %al\n"
+                return c, ""
+            return c + add, ""
+        raise ValueError(ref)
+
+    def _emit_site(self, s):
+        t = self.defs[s["tgt"]]
+        T, ref, n = t["name"], s["ref"], s["n"]
+        cat = CAT[t["kind"]]
+        A = 8 * s["k"]
+        plus = f"+{A}" if A else ""
+        head = f'    .section .text.site{n},"ax",@progbits\n    .globl site{n}\n    .type site{n},@function\nsite{n}:\n'
+        data = ""
+        if cat == "tls":
+            if ref == "tpoff32m":
+                body = f"    mov %fs:{T}@tpoff{plus}, %rax\n"
+            elif ref == "tpoff32i":
+                body = f"    mov ${T}@tpoff{plus}, %rax\n    mov %fs:(%rax), %rax\n"
+            elif ref == "tpoff64d":
+                sec = ".data.rel.ro" if s["ro"] else ".data"
+                data = f'    .section {sec}.site{n},"aw",@progbits\n    .balign 8\nP{n}:\n    .quad {T}@tpoff{plus}\n'
+                body = f"    mov P{n}(%rip), %rax\n    mov %fs:(%rax), %rax\n"
+            elif ref == "gottpoff":
+                body = f"    mov {T}@gottpoff(%rip), %rax\n    mov %fs:{A}(%rax), %rax\n"
+            elif ref == "gottpoff_add":
+                body = f"    mov %fs:0, %rax\n    add {T}@gottpoff(%rip), %rax\n    mov {A}(%rax), %rax\n"
+            elif ref == "tlsgd":
+                body = (f"    sub $8, %rsp\n    .byte 0x66\n    leaq {T}@tlsgd(%rip), %rdi\n    .value 0x6666\n    rex64\n"
+                        f"    call __tls_get_addr@PLT\n    mov {A}(%rax), %rax\n    add $8, %rsp\n")
+            elif ref == "tlsld":
+                body = (f"    sub $8, %rsp\n    leaq {T}@tlsld(%rip), %rdi\n    call __tls_get_addr@PLT\n"
+                        f"    mov {T}@dtpoff{plus}(%rax), %rax\n    add $8, %rsp\n")
+            elif ref == "tlsdesc":
+                body = (f"    sub $8, %rsp\n    leaq {T}@tlsdesc(%rip), %rax\n    call *{T}@tlscall(%rax)\n"
+                        f"    mov %fs:{A}(%rax), %rax\n    add $8, %rsp\n")
+            else:
+                raise ValueError(ref)
+            return head + body + "    ret\n" + data
+        if ref == "call":
+            return head + f"    sub $8, %rsp\n    call {T}{plus}\n    add $8, %rsp\n    ret\n"
+        if ref == "jmp":
+            return head + f"    jmp {T}{plus}\n"
+        if ref == "gotcall":
+            if A:
+                return head + f"    sub $8, %rsp\n    mov {T}@GOTPCREL(%rip), %rax\n    add ${A}, %rax\n    call *%rax\n    add $8, %rsp\n    ret\n"
+            return head + f"    sub $8, %rsp\n    call *{T}@GOTPCREL(%rip)\n    add $8, %rsp\n    ret\n"
+        if ref == "gotjmp":
+            if A:
+                return head + f"    mov {T}@GOTPCREL(%rip), %rax\n    add ${A}, %rax\n    jmp *%rax\n"
+            return head + f"    jmp *{T}@GOTPCREL(%rip)\n"
+        if ref == "pltoff64":
+            return head + (f"    sub $8, %rsp\n    lea _GLOBAL_OFFSET_TABLE_(%rip), %rcx\n    movabs ${T}@PLTOFF, %rax\n"
+                           f"    add %rcx, %rax\n" + (f"    add ${A}, %rax\n" if A else "") +
+                           "    call *%rax\n    add $8, %rsp\n    ret\n")
+        if ref == "abs32sm":
+            return head + f"    mov {T}{plus}, %rax\n    ret\n"
+        if ref == "pc32m":
+            return head + f"    mov {T}{plus}(%rip), %rax\n    ret\n"
+        code, data = self._addr_code(s, t)
+        if ref in FLAG_OBS or cat in ("abs", "wundef"):
+            return head + code + "    ret\n" + data
+        if cat == "func":
+            return head + "    sub $8, %rsp\n" + code + "    call *%rax\n    add $8, %rsp\n    ret\n" + data
+        return head + code + "    mov (%rax), %rax\n    ret\n" + data
+
+    def tu_source(self, tu):
+        s = []
+        for d in self.defs:
+            if d["tu"] == tu:
+                s.append(self._emit_def(d))
+            if d["dup_tu"] == tu:
+                s.append(self._emit_def(d, weak_copy=True))
+        wund = set()
+        for st_ in self.sites:
+            if st_["tu"] == tu:
+                t = self.defs[st_["tgt"]]
+                if t["kind"] == "wundef" and t["name"] not in wund:
+                    wund.add(t["name"])
+                    s.append(f"    .weak {t['name']}\n")
+                s.append(self._emit_site(st_))
+        # init function: fills commons / tbss owned by this TU
+        s.append(f'    .section .text.init{tu},"ax",@progbits\n    .globl init{tu}\n    .type init{tu},@function\ninit{tu}:\n')
+        for d in self.defs:
+            if d["tu"] != tu:
+                continue
+            if d["kind"] == "common":
+                s.append(f"    mov {d['name']}@GOTPCREL(%rip), %rax\n")
+            elif d["kind"] == "tbss":
+                s.append(f"    mov %fs:0, %rax\n    add {d['name']}@gottpoff(%rip), %rax\n")
+            else:
+                continue
+            for k in range(4):
+                s.append(f"    movq ${(d['id'] << 8) | k}, {8 * k}(%rax)\n")
+        s.append("    ret\n")
+        s.append(NOTE_GNU_STACK)
+        return "".join(s)
+
+    def driver_source(self):
+        s = ['    .section .text.vmain,"ax",@progbits\n    .globl vmain\n    .type vmain,@function\nvmain:\n    push %rbx\n']
+        for tu in range(self.ntu):
+            s.append(f"    call init{tu}@PLT\n")
+        for st_ in self.sites:
+            s.append(f"    call site{st_['n']}@PLT\n    mov %rax, %rsi\n    mov ${st_['n']}, %edi\n    call emit2@PLT\n")
+        s.append(f"    mov ${self.expected_rc()}, %eax\n    pop %rbx\n    ret\n")
+        s.append(NOTE_GNU_STACK)
+        return "".join(s)
+
+    def helper_source(self):
+        s = []
+        for d in self.defs:
+            if d["kind"] == "hfunc":
+                s.append(f'    .text\n    .balign 8\n    .globl {d["name"]}\n    .type {d["name"]},@function\n{d["name"]}:\n'
+                         f"    mov ${d['id'] << 8}, %eax\n    ret\n    .balign 8\n    mov ${(d['id'] << 8) | 1}, %eax\n    ret\n"
+                         f"    .size {d['name']}, .-{d['name']}\n")
+            elif d["kind"] == "hdata":
+                s.append(f'    .data\n    .balign 8\n    .globl {d["name"]}\n    .type {d["name"]},@object\n{d["name"]}:\n' +
+                         "".join(f"    .quad {(d['id'] << 8) | k}\n" for k in range(4)) + f"    .size {d['name']}, 32\n")
+            elif d["kind"] == "htls":
+                s.append(f'    .section .tdata,"awT",@progbits\n    .balign 8\n    .globl {d["name"]}\n    .type {d["name"]},@object\n'
+                         f'{d["name"]}:\n' + "".join(f"    .quad {(d['id'] << 8) | k}\n" for k in range(4)) +
+                         f"    .size {d['name']}, 32\n")
+        s.append(NOTE_GNU_STACK)
+        return "".join(s)
+
+    def emit(self, cwd):
+        """Assembles all TUs (+ driver) into cwd. Returns {"objs": [...], "libs": [...]}; the helper
+        shared library (if used) is linked by GNU ld and is the same file for every linker under test."""
+        objs = []
+        for tu in range(self.ntu):
+            tools.asm(self.tu_source(tu), f"t{tu}.o", cwd=cwd)
+            objs.append(f"t{tu}.o")
+        tools.asm(self.driver_source(), "drv.o", cwd=cwd)
+        objs.append("drv.o")
+        libs = []
+        if self.uses_helper():
+            tools.asm(self.helper_source(), "helper.o", cwd=cwd)
+            tools.must(tools.link("ld", ["-shared", "-o", "libvhelper.so", "-soname", "libvhelper.so", "helper.o"], cwd=cwd),
+                       "linking helper library")
+            libs = ["libvhelper.so", "-Wl,-rpath,$ORIGIN"]
+        return {"objs": objs, "libs": libs}
+
+
+def realise(spec, modes):
+    return Program(spec, modes)
+
+
+def program_strategy(max_defs=10, max_sites=12, def_kinds=None):
+    from hypothesis import strategies as st
+    kinds = def_kinds or DEF_KINDS
+    d = st.fixed_dictionaries({"tu": st.integers(0, 5), "kind": st.sampled_from(kinds), "bind": st.sampled_from(BINDS),
+                               "pad": st.integers(0, 2), "aux": st.integers(0, 23), "dup": st.sampled_from([0, 0, 0, 1, 2])})
+    s = st.fixed_dictionaries({"tu": st.integers(0, 5), "ref": st.integers(0, 63), "tgt": st.integers(0, 39),
+                               "k": st.integers(0, 3), "aux": st.integers(0, 7)})
+    return st.fixed_dictionaries({"ntu": st.integers(2, 4), "defs": st.lists(d, min_size=2, max_size=max_defs),
+                                  "sites": st.lists(s, min_size=1, max_size=max_sites)})
